@@ -1,3 +1,4 @@
+\* stand-alone example (tlc -workers 1 -config GenBn.cfg GenBn.tla); rig/checks/c01.py writes its own cfgs (digit sets, seeded extras, moduli) per tier
 INIT Init
 NEXT Next
 CONSTANTS
